@@ -9,7 +9,7 @@ PROPS = {
         'kani': [],
         'trusted_base': [
             'Verus 0.2026.09.13 (vstd specifications of String::push/push_str/new, Vec, Option, slice iteration, Range), Z3, rustc 1.98.1',
-            'PeekChars shim = peekmore 1.3.0 PeekMoreIterator<Chars>::{next, peek_amount} (3 external_body contracts, vx/prelude/peekchars.rs)',
+            'peekmore 1.3.0: the methods the formatter uses (next, peek_amount, peek_range, fill_queue, push_next_to_queue, decrement_cursor) are extracted from the dependency source pinned by Cargo.lock, instantiated at I = Chars (rule R2p) and VERIFIED (U-PEEK); assumed: std::str::Chars as a fused iterator over the chars of the string (vx/prelude/chars_shim.rs); the cursor-moving methods (peek, advance_cursor, next_if_eq, ...) have assumed contracts and are not used by the code as shipped',
             'SmallVec<[Scope; 8]> behaves as Vec<Scope> for push/pop/last (rewrite R2)',
             'a &str holds at most isize::MAX bytes (Rust allocation guarantee), stated in PeekChars::new',
         ],
@@ -54,7 +54,7 @@ PROPS = {
         'kani': ['primnames_table', 'primnames_in_type_name'],
         'trusted_base': [
             'Verus 0.2026.09.13, Z3, rustc 1.98.1',
-            'PeekChars shim = peekmore 1.3.0 (3 external_body contracts); SmallVec as Vec; &str <= isize::MAX bytes',
+            'peekmore 1.3.0 next / peek_amount verified from the dependency source (U-PEEK); std::str::Chars assumed; SmallVec as Vec; &str <= isize::MAX bytes',
         ],
         'assumptions': [
             'everything type_description does before the formatting decision (Transformer construction, policies, resolve) is abstracted by rule R8-head: its result is an arbitrary string named by an uninterpreted spec function',
